@@ -19,7 +19,7 @@ ASSUMPTIONS = ["no verdict depends on a reply being fast: a slow 'deliver' only 
                "replaying a reply from exactly 65536 calls earlier is outside the statement and not generated",
                "server-side execution counts are read after the server has handled every forwarded request (5 s watchdog, expiry = inconclusive)"]
 REQUIRED_REACH = ["recovered_after_daemon_restart", "calls_own_reply", "calls_comm_error", "faults_applied", "oneway_calls", "recovered_after_faults", "exactly_once_tokens", "retries_observed", "seq_wraps"]
-SHARD_TIMEOUT = {"quick": 240, "thorough": 3000}
+SHARD_TIMEOUT = {"quick": 480, "thorough": 3000}
 KINDS = ["echo", "echo", "echo", "boom", "pyroboom", "oneway", "batch", "attr", "stream", "batchow", "batchmix", "onewaybad"]
 
 
